@@ -492,6 +492,38 @@ func (g *gen) build() {
 		x.H3.FinLaterMs = []int{0, 0, 40}[i%3]
 		x.DelayMs = []int{0, 60}[(i/3)%2]
 	}
+	// U. round 8: announced x sent trailer field sets - equal, subset (some sent fields are not announced), superset
+	//    (announced fields that never arrive), disjoint, none - on all three protocols: every trailer field sent
+	//    is delivered, whatever was announced
+	for i, n := 0, r.Scale(60, 600); i < n; i++ {
+		a := g.muxAresp(hk.Pick(rng, smallLens), rng.Intn(3))
+		for !bodyAllowed(a.Code) || a.Code >= 300 && a.Code < 400 {
+			a = g.muxAresp(hk.Pick(rng, smallLens), rng.Intn(3))
+		}
+		a.Interim = nil
+		a.Trailers = nil
+		for k, nt := 0, rng.Range(2, 4); k < nt; k++ {
+			a.Trailers = append(a.Trailers, field{[]string{"X-Checksum", "Server-Timing", "x-trailer-b", "X-Trailer-A"}[k], genValue(rng, false)})
+		}
+		if rng.Chance(30) { // a repeated name
+			a.Trailers = append(a.Trailers, field{"x-checksum", "again"})
+		}
+		a.setAnnounce(rng, []string{"subset", "superset", "disjoint", "equal", "subset", "none"}[i%6])
+		mode := hk.Pick(rng, modes)
+		grp := 100000 + i
+		switch i % 4 {
+		case 0:
+			g.h1(a, &h1opts{Framing: wire.FrChunked}, "GET", mode, hk.Pick(rng, segKinds), false)
+		case 1:
+			g.h2(a, "GET", mode, hk.Pick(rng, segKinds), false)
+		case 2:
+			g.h3(a, "GET", mode, false)
+		default: // the same response over all three
+			g.h1(a, &h1opts{Framing: wire.FrChunked}, "GET", mode, hk.Pick(rng, segKinds), false).Group = grp
+			g.h2(a, "GET", mode, hk.Pick(rng, segKinds), false).Group = grp
+			g.h3(a, "GET", mode, false).Group = grp
+		}
+	}
 	// K. output files as state across exchanges
 	for i, n := 0, r.Scale(16, 300); i < n; i++ {
 		g.files = append(g.files, genFileScenario(rng, i, filepath.Join(r.OutDir, "dl")))
